@@ -460,6 +460,7 @@ class EvolvableMultiInput(EvolvableModule):
         """
         self.activation = activation
         if output:
+            self.output_activation = activation
             self.output = get_activation(activation)
 
     @mutation(MutationType.NODE)
